@@ -69,6 +69,20 @@ SyncRun(loc, disabled, o, via) ==
                      ELSE [kind |-> "raise", cls |-> "ValueError", wrapped |-> FALSE]]
 
 -----------------------------------------------------------------------------
+(* Part D: operations_proxy (a wrapper repository forwarding to its raw repository's operations),
+   specified as the code behaves.  What it says it offers follows its own overrides; what it BINDS is
+   what the raw repository offers.  Named deviations: an operation disabled on the proxy stays
+   callable directly; an operation force-enabled on the proxy that the raw repository does not offer
+   makes run_if_supported raise AttributeError. *)
+ProxyEnabled(rawen, en, dis) == (rawen \cup en) \ dis
+ProxyInvoke(rawen, en, dis, op, via) ==
+  LET fwd == [kind |-> "ret", cls |-> "-", wrapped |-> FALSE]
+      noattr == [kind |-> "raise", cls |-> "AttributeError", wrapped |-> FALSE] IN
+  IF via = "direct" THEN (IF op \in rawen THEN fwd ELSE noattr)
+  ELSE IF op \notin ProxyEnabled(rawen, en, dis) THEN Unsupported("run")
+  ELSE IF op \in rawen THEN fwd ELSE noattr
+
+-----------------------------------------------------------------------------
 (* Part B *)
 Kinds == {"install", "uninstall", "replace"}
 UserStages == {"add_data", "remove_data", "finalize_data"}
